@@ -65,6 +65,8 @@ def run_case(seed, tier, rec, st):
         tg = TypeGen(fam, rng, dc_config_fn=config_fn)
         maxd = 2 if tier == "quick" else rng.choice([1, 2, 3, 3, 4])
         t = tg.type(rng.randint(0, maxd))
+        if rng.random() < 0.03:
+            t = tg.nullable_fixed_tuple()          # nullable position > fixed-shape tuple > nullable members
         if tg.allow_field_engine and tg.allow_named and rng.random() < 0.03:
             t = tg.nt_engine_dataclass()          # NamedTuple engine lattice (Config option x field option x position)
         ref = Ref(fam)
